@@ -286,12 +286,17 @@ def all_solvers(ctx):
                     kw = rng.choice([{}, {'restart': 2, }, {'restart': 3}])
                     if name == 'gmres':
                         kw = dict(kw, orthog=rng.choice(['mgs', 'householder']))
-                for variant in ('random-x0', 'exact-x0', 'zero-rhs'):
+                for variant in ('random-x0', 'exact-x0', 'zero-rhs', 'unit-rhs'):
                     bb = b
                     if variant == 'exact-x0':
                         x0 = np.linalg.solve(Ad, b)
                     elif variant == 'zero-rhs':
                         bb = np.zeros_like(b)
+                        x0 = np.zeros_like(b)
+                    elif variant == 'unit-rhs':
+                        # exact zeros in the leading entries of the initial residual (sign / pivot special cases)
+                        bb = np.zeros_like(b)
+                        bb[-1] = 1.0
                         x0 = np.zeros_like(b)
                     else:
                         x0 = np.array([rng.uniform(-1, 1) for _ in range(n)]).astype(b.dtype)
